@@ -31,8 +31,22 @@ PARAM_LB = {
 }
 
 
-def decoder_bodies(P):
-    return sorted(b for b in P.bodies if DECODERS.match(b))
+def decoder_bodies(P, O=None):
+    """the tabled decoder roots plus every workspace function they (transitively) call that itself handles the
+    untrusted bytes (a parameter of type byte slice or ChangeCursor): helpers split off a decoder stay covered."""
+    roots = sorted(b for b in P.bodies if DECODERS.match(b))
+    if O is None:
+        return roots
+    out = set(roots)
+    for r in roots:
+        for g in O.reach(r):
+            G = P.bodies.get(g)
+            if G is None or g in out or G.krate not in ("rawdb", "vecdb"):
+                continue
+            ptys = [G.locals[i]["ty"] for i in range(1, G.arg_count + 1)]
+            if any(("[u8]" in t and "mut" not in t) or "ChangeCursor" in t for t in ptys):
+                out.add(g)
+    return sorted(out)
 
 
 def run_sites(ctx, chk, bodies, prefix="D1"):
@@ -95,7 +109,7 @@ def guards_of(ctx, F, target_block):
 
 def run(ctx, chk):
     O, P = ctx.O, ctx.P
-    bodies = decoder_bodies(P)
+    bodies = decoder_bodies(P, O)
     if len(bodies) < 60:
         raise AnchorMissing("expected >= 60 decoder bodies (incl. numeric/array impls and closures), found %d" % len(bodies))
     for must in ("rawdb::region_metadata::RegionMetadata::from_bytes", "vecdb::base::header::inner::HeaderInner::from_bytes",
@@ -148,6 +162,38 @@ def run(ctx, chk):
         chk.oblige("D3 HeaderInner::import_and_verify compares %s before accepting the header" % fld,
                    any(fld in g["fields"] for g in gs), key="D3|import_and_verify|%s" % fld,
                    msg="a stored header must be verified field by field")
+    # D6 writer and reader agree on the validity rules: the id length bound is checked in *bytes* against the same
+    # constant on both sides (validate_id at construction / rename, from_bytes at open)
+    vid = O.body("rawdb::region_metadata::RegionMetadata::validate_id")
+    agree = False
+    for b in vid.reachable():
+        t = vid.blocks[b]["term"]
+        if t["k"] == "switch":
+            sl = O.slice_back(vid, t["op"])
+            if any(c in ("core::str::<impl str>::len", "alloc::string::String::len") for c in sl["calls"]) and (
+                    "1024" in {str(x) for x in sl["consts"]} or "rawdb::region_metadata::MAX_REGION_ID_LEN" in sl["consts"]):
+                agree = True
+    chk.oblige("D6 validate_id bounds the id's *byte* length by MAX_REGION_ID_LEN, the bound from_bytes enforces", agree,
+               key="D6|validate_id|byte-length-bound",
+               msg="the writer must not accept a name the reader rejects (or that does not fit the slot): both sides bound "
+                   "the encoded byte length by the same constant")
+    # D7 every ChangeCursor read checks the whole window before it indexes or advances
+    cur = "vecdb::base::change::cursor::ChangeCursor::<'a>::"
+    chkrem = M(r"vecdb::base::change::cursor::ChangeCursor::<'a>::check_remaining", reach="must")
+    for meth in ("read_u64", "read_stamp", "skip", "read_values"):
+        B = O.body(cur + meth)
+        a_sites = O.sites(B, chkrem)
+        inn = O.seen_before(B, a_sites)
+        adv = [b for b in B.reachable() for st in B.blocks[b]["stmts"]
+               if st[0] == "assign" and any(isinstance(e, list) and e[0] == "f" and e[2] == "pos" for e in st[1]["p"])]
+        idx = [b for b, t in B.calls() if any(n.endswith("Index::index") or n.endswith("::get") or n.endswith("get_unchecked")
+                                              for n in names(t)) and "bytes" in str(O.slice_back(B, t["args"][0])["fields"])]
+        bad = [b for b in adv + idx if not inn[b]]
+        chk.oblige("D7 ChangeCursor::%s: check_remaining precedes every access to `bytes` and every advance of `pos` "
+                   "[%d accesses, %d advances]" % (meth, len(idx), len(adv)), bool(a_sites) and not bad,
+                   key="D7|ChangeCursor::%s|unchecked-window" % meth,
+                   msg="a record that ends inside a field must be refused: each read checks that the whole window lies "
+                       "inside the record before touching it")
     # D4 Regions::fill skips a slot whose decode fails
     F = O.body("rawdb::regions::Regions::fill")
     fb = O.need_sites(F, M(r"rawdb::region_metadata::RegionMetadata::from_bytes"), 1)
